@@ -38,7 +38,7 @@ pub const CORPUS: &[&str] = &[
     "2K4k/8/8/8/B1B5/1B1B4/B1B5/1B1B4 w - - 0 1",
 ];
 
-pub const SOURCES: [&str; 15] = [
+pub const SOURCES: [&str; 16] = [
     "sparse",
     "dense",
     "playout",
@@ -54,6 +54,7 @@ pub const SOURCES: [&str; 15] = [
     "ep_only_reply",
     "max_mobility",
     "shuffled_camps",
+    "few_moves",
 ];
 
 /// Positions with (near-)maximal numbers of semilegal moves found by earlier maximisation runs.
@@ -747,6 +748,123 @@ fn src_shuffled_camps(cur: &mut Cursor, p: &mut RefPos) {
     }
 }
 
+/// Positions in which the side to move has very few moves: a king hemmed in by enemy line pieces plus one to
+/// three men that are blocked pawns, pawns about to promote next to enemy men, pawns on their start rank, or
+/// pieces pinned by construction. The legal set is often empty or a single move of a special kind, which is
+/// where early-exit searches ("has a legal move") and check/mate marks can go wrong.
+fn src_few_moves(cur: &mut Cursor, p: &mut RefPos) {
+    let us = Col::W;
+    let them = Col::B;
+    let edge: Vec<Sq> = (0..64u8).filter(|&s| file_of(s) == 0 || file_of(s) == 7 || rank_of(s) == 0 || rank_of(s) == 7).collect();
+    let k = if cur.chance(170) { edge[cur.below(edge.len())] } else { cur.below(64) as Sq };
+    p.b[k as usize] = Some((us, Pc::K));
+    if let Some(bk) = free_sq(cur, p, |s| !adjacent(s, k)) {
+        p.b[bk as usize] = Some((them, Pc::K));
+    }
+    // our few men
+    let n = 1 + cur.below(3);
+    for _ in 0..n {
+        match cur.below(6) {
+            0 => {
+                // pawn on its start rank, often with the double-step square on a line to our king
+                if let Some(s) = free_sq(cur, p, |s| rank_of(s) == 1) {
+                    p.b[s as usize] = Some((us, Pc::P));
+                    if cur.chance(60) {
+                        let front = mk_sq(file_of(s), 2).unwrap();
+                        if p.b[front as usize].is_none() {
+                            p.b[front as usize] = Some((them, cur.pick(&[Pc::P, Pc::N])));
+                        }
+                    }
+                }
+            }
+            1 | 2 => {
+                // pawn on the 7th, enemy men on the 8th beside / in front of it
+                if let Some(s) = free_sq(cur, p, |s| rank_of(s) == 6) {
+                    p.b[s as usize] = Some((us, Pc::P));
+                    for df in [-1i8, 0, 1] {
+                        if let Some(t) = mk_sq(file_of(s) + df, 7) {
+                            if p.b[t as usize].is_none() && cur.chance(if df == 0 { 170 } else { 110 }) {
+                                p.b[t as usize] = Some((them, cur.pick(&[Pc::R, Pc::N, Pc::B, Pc::Q])));
+                            }
+                        }
+                    }
+                    // a second pawn two files away so that two pawns can flank one target
+                    if cur.chance(90) {
+                        if let Some(t) = mk_sq(file_of(s) + 2, 6) {
+                            if p.b[t as usize].is_none() {
+                                p.b[t as usize] = Some((us, Pc::P));
+                            }
+                        }
+                    }
+                }
+            }
+            3 => {
+                // blocked pawn anywhere
+                if let Some(s) = free_sq(cur, p, |s| (1..=5).contains(&rank_of(s))) {
+                    let front = mk_sq(file_of(s), rank_of(s) + 1).unwrap();
+                    if p.b[front as usize].is_none() {
+                        p.b[s as usize] = Some((us, Pc::P));
+                        p.b[front as usize] = Some((them, cur.pick(&[Pc::P, Pc::N, Pc::B])));
+                        if matches!(p.b[front as usize], Some((_, Pc::P))) && !pawn_ok(front) {
+                            p.b[front as usize] = Some((them, Pc::N));
+                        }
+                    }
+                }
+            }
+            4 => {
+                // pawn on the 5th beside an enemy pawn that has just made a double step
+                let f = cur.below(8) as i8;
+                let df = if f == 0 { 1 } else if f == 7 { -1 } else if cur.bool() { 1 } else { -1 };
+                let (a, v) = (mk_sq(f, 4).unwrap(), mk_sq(f + df, 4).unwrap());
+                let behind = mk_sq(f + df, 5).unwrap();
+                if p.b[a as usize].is_none() && p.b[v as usize].is_none() && p.b[behind as usize].is_none() {
+                    p.b[a as usize] = Some((us, Pc::P));
+                    p.b[v as usize] = Some((them, Pc::P));
+                    p.ep = Some(v);
+                    if cur.chance(110) {
+                        if let Some(a2) = mk_sq(f + 2 * df, 4) {
+                            if p.b[a2 as usize].is_none() {
+                                p.b[a2 as usize] = Some((us, Pc::P));
+                            }
+                        }
+                    }
+                }
+            }
+            _ => {
+                // a piece pinned by construction: between our king and an enemy line piece
+                let d = cur.pick(&[(1i8, 0i8), (-1, 0), (0, 1), (0, -1), (1, 1), (1, -1), (-1, 1), (-1, -1)]);
+                let mut ray: Vec<Sq> = Vec::new();
+                let (mut f, mut r) = (file_of(k) + d.0, rank_of(k) + d.1);
+                while let Some(s) = mk_sq(f, r) {
+                    ray.push(s);
+                    f += d.0;
+                    r += d.1;
+                }
+                if ray.len() >= 2 && ray.iter().all(|s| p.b[*s as usize].is_none()) {
+                    let i = cur.below(ray.len() - 1);
+                    let j = i + 1 + cur.below(ray.len() - 1 - i);
+                    let diag = d.0 != 0 && d.1 != 0;
+                    let mut pc = cur.pick(&[Pc::N, Pc::B, Pc::R, Pc::P]);
+                    if pc == Pc::P && !pawn_ok(ray[i]) {
+                        pc = Pc::N;
+                    }
+                    p.b[ray[i] as usize] = Some((us, pc));
+                    p.b[ray[j] as usize] = Some((them, if cur.bool() { Pc::Q } else if diag { Pc::B } else { Pc::R }));
+                }
+            }
+        }
+    }
+    // enemy line pieces that take the king's squares away
+    let m = 1 + cur.below(4);
+    for _ in 0..m {
+        let pc = cur.pick(&[Pc::Q, Pc::R, Pc::R, Pc::B, Pc::N]);
+        if let Some(s) = free_sq(cur, p, |s| (file_of(s) - file_of(k)).abs().max((rank_of(s) - rank_of(k)).abs()) >= 2) {
+            p.b[s as usize] = Some((them, pc));
+        }
+    }
+    p.side = us;
+}
+
 /// Colour flip: mirror ranks, swap colours, side, rights, mark.
 pub fn flip_colors(p: &RefPos) -> RefPos {
     let mut n = RefPos::empty();
@@ -934,6 +1052,11 @@ pub fn gen_position_from(cur: &mut Cursor, sel: usize) -> (RefPos, &'static str)
             own_side = true;
         }
         14 => src_shuffled_camps(cur, &mut p),
+        15 => {
+            src_few_moves(cur, &mut p);
+            keep_ep = true;
+            own_side = true;
+        }
         _ => {
             src_corpus_mut(cur, &mut p);
             keep_ep = true;
